@@ -1,6 +1,7 @@
 """Call dispatch: contracted repo functions (checked against their contract, never their body),
 assumed library contracts (numpy / pandas / neurodsp / builtins), ghost call log."""
 import ast
+import math
 
 import z3
 
@@ -1021,6 +1022,97 @@ def np_sum(E, args, node):
         t = f(E.mat(v), n)
         return X(t) if v.ty == XR else Z(t, REAL if v.ty == REAL else INT)
     raise Unsupported('np.sum(%r)' % (v,))
+
+
+@libfn('neurodsp.filt.filter_signal', 'neurodsp.filt.filter.filter_signal')
+def nd_filter_signal(E, args, node):
+    """assumed contract: with remove_edges=False a finite real array of the length of the input (no NaN edges); which
+    array is not constrained (the zero-crossing structure of the output is what the callers reason about); errors the
+    filter design may raise for unusable bands are not modelled"""
+    sig = args.get(0, 'sig')
+    if args.kw.get('remove_edges', True) is not False:
+        raise Unsupported('filter_signal with remove_edges != False (NaN edges)')
+    if not isinstance(sig, Arr):
+        raise Unsupported('filter_signal(%r)' % (sig,))
+    r = E.new_arr(sig.n, REAL, base='filtered')
+    E.st.calls.append(('neurodsp.filt.filter_signal', {'sig': sig}, r))
+    return r
+
+
+@libfn('neurodsp.filt.fir.compute_filter_length')
+def nd_compute_filter_length(E, args, node):
+    """assumed contract: a positive integer number of samples"""
+    z = E.fresh_z('filt_len', INT)
+    E.assume(z.t >= 1)
+    E.st.calls.append(('neurodsp.filt.fir.compute_filter_length', {}, z))
+    return z
+
+
+@libfn('numpy.ceil')
+def np_ceil(E, args, node):
+    v = args.pos[0]
+    if isinstance(v, (int, float)) and not isinstance(v, bool):
+        return float(math.ceil(v))
+    if isinstance(v, Z) and v.ty == INT:
+        return Z(z3.ToReal(v.t), REAL)
+    if isinstance(v, Z) and v.ty == REAL:
+        return Z(z3.ToReal(-z3.ToInt(-v.t)), REAL)
+    raise Unsupported('np.ceil(%r)' % (v,))
+
+
+@libfn('numpy.pad')
+def np_pad(E, args, node):
+    """np.pad(a, h, mode='constant'): h zeros, the array, h zeros; ValueError for a negative width"""
+    a = args.get(0, 'array')
+    h = args.get(1, 'pad_width')
+    if args.kw.get('mode', 'constant') != 'constant' or 'constant_values' in args.kw or not isinstance(a, Arr) or a.ndim != 1:
+        raise Unsupported('np.pad variant')
+    ht = term_int(h)
+    if not E.spec_mode:
+        if E.branch(Z(ht < 0, BOOL), 'pad-negative'):
+            raise RaiseSig('ValueError', node, "index can't contain negative values")
+    n = a.n if not isinstance(a.n, int) else z3.IntVal(a.n)
+    src = E.st.heap[a.ident]
+    zero = {REAL: lift(0.0), INT: lift(0), XR: xops.to_x(lift(0.0)), BOOL: lift(False)}[a.ty]
+    off, st = a.off, a.stride
+
+    def clo(i):
+        return E.ite(z3.And(i >= ht, i < ht + n), src(off + (i - ht) * st), zero)
+    return E.new_arr(z3.simplify(n + 2 * ht), a.ty, clo)
+
+
+def _arg_extreme(E, args, node, is_max):
+    """np.argmax / np.argmin of a non-empty 1-D array: the FIRST position of the largest / smallest entry
+    (ValueError on an empty array); finite entries (NaN ordering is not modelled: real arrays only)"""
+    a = args.pos[0]
+    if not isinstance(a, Arr) or a.ndim != 1 or a.ty not in (REAL, INT):
+        raise Unsupported('argmax/argmin of %r' % (a,))
+    n = a.n if not isinstance(a.n, int) else z3.IntVal(a.n)
+    if not E.spec_mode:
+        if E.branch(Z(n <= 0, BOOL), 'arg-extreme-empty'):
+            raise RaiseSig('ValueError', node, 'attempt to get argmax of an empty sequence')
+    r = z3.Int(fresh_name('argmax' if is_max else 'argmin'))
+    i = z3.Int(fresh_name('i'))
+    at = lambda t: to_real(E.rd(a, t)) if a.ty == REAL else to_int(E.rd(a, t))
+    ge = (lambda x, y: x >= y) if is_max else (lambda x, y: x <= y)
+    gt = (lambda x, y: x > y) if is_max else (lambda x, y: x < y)
+    E.assume(z3.And(r >= 0, r < n))
+    ax1 = z3.ForAll([i], z3.Implies(z3.And(i >= 0, i < n), ge(at(r), at(i))))
+    ax2 = z3.ForAll([i], z3.Implies(z3.And(i >= 0, i < r), gt(at(r), at(i))))
+    E.assumptions_quant(ax1)
+    E.assumptions_quant(ax2)
+    E.st.ghost.setdefault('argext', []).append(dict(r=r, n=n, at=at, ge=ge, gt=gt, is_max=is_max))
+    return Z(r, INT)
+
+
+@libfn('numpy.argmax')
+def np_argmax(E, args, node):
+    return _arg_extreme(E, args, node, True)
+
+
+@libfn('numpy.argmin')
+def np_argmin(E, args, node):
+    return _arg_extreme(E, args, node, False)
 
 
 @libfn('numpy.round')
